@@ -9,6 +9,7 @@ import GIV.Lemmas.ImportsReadMain
 import GIV.Lemmas.ImportsReadTotal
 import GIV.Lemmas.ImportsReadFuel
 import GIV.Lemmas.ImportsReadGoMain
+import GIV.Lemmas.ScanSpec
 
 namespace GIV.C18
 open GIV GIV.ReadImports
@@ -252,5 +253,173 @@ theorem go_ReadComments_agrees (input : Bytes) :
   ReadGo.go_ReadComments_eq input
 
 example : Go.Read.ReadComments [47, 47, 32, 104, 105, 10, 47, 42, 32, 99, 32, 42, 47, 32, 112, 97, 99, 107, 97, 103, 101, 32, 112] = some ([47, 47, 32, 104, 105, 10, 47, 42, 32, 99, 32, 42, 47, 32], none) := by decide +kernel
+
+/-! ### the consumers: imports/scan.go (scanFiles behind ScanDir and ScanFiles)
+
+Model: GIV.Model.Scan (`scanFiles`, `scanDir`, `unquote`, `keys`), statement by statement on top of
+`readImports … false`, `shouldBuild`, `matchFile`; tied to /repo by the scan lane of the
+correspondence run (real directories, imports.ScanDir / ScanFiles vs the model; strconv.Unquote vs
+`unquote`).  Per-file notions (GIV.Lemmas.ScanSpec): `litsD d` = the import literals ReadImports
+reports for content `d`; `readFails f` = the error the scan aborts with at `f`; `selected … f` = not
+skipped by the `import "C"` rule and (unless the files are explicit) accepted by ShouldBuild on the
+returned prefix; `isTest f` = the name ends in `_test.go`.  "Dropped imports are silent" — these
+theorems say that the callers drop and invent nothing. -/
+
+open GIV.Scan in
+/-- example file set (explicit files, no tags):
+`a.go`: `package p\nimport "b"\nimport "a"\n`;
+`a_test.go`: `package p\nimport (\n"t"\n"a\x62"\n"\q"\n)\n` (an escape that decodes, one Unquote rejects);
+`c.go`: `package p\nimport "C"\nimport "z"\n` (skipped: no cgo tag);
+`d.go`: ``package p\nimport `a`\n`` (raw literal, duplicate of "a"). -/
+def exFiles : List File :=
+  [([97, 46, 103, 111], [112, 97, 99, 107, 97, 103, 101, 32, 112, 10, 105, 109, 112, 111, 114, 116, 32, 34, 98, 34, 10, 105, 109, 112, 111, 114, 116, 32, 34, 97, 34, 10]),
+   ([97, 95, 116, 101, 115, 116, 46, 103, 111], [112, 97, 99, 107, 97, 103, 101, 32, 112, 10, 105, 109, 112, 111, 114, 116, 32, 40, 10, 34, 116, 34, 10, 34, 97, 92, 120, 54, 50, 34, 10, 34, 92, 113, 34, 10, 41, 10]),
+   ([99, 46, 103, 111], [112, 97, 99, 107, 97, 103, 101, 32, 112, 10, 105, 109, 112, 111, 114, 116, 32, 34, 67, 34, 10, 105, 109, 112, 111, 114, 116, 32, 34, 122, 34, 10]),
+   ([100, 46, 103, 111], [112, 97, 99, 107, 97, 103, 101, 32, 112, 10, 105, 109, 112, 111, 114, 116, 32, 96, 97, 96, 10])]
+
+def exScanU : Nat → Bool := fun _ => false
+def noTags : GIV.Build.Tags := fun _ => false
+def cgoTags : GIV.Build.Tags := fun t => t == GIV.Scan.cgoTag
+
+/-- the scan result as plain data (for closed examples). -/
+def showScan : Except GIV.Scan.ScanErr (List Bytes × List Bytes) → Option (List Bytes × List Bytes) × Option GIV.Scan.ScanErr
+  | .ok r => (some r, none)
+  | .error e => (none, some e)
+
+open GIV.Scan in
+/-- No import is dropped: when scanFiles succeeds, every import literal that ReadImports reports for a
+selected file and that strconv.Unquote accepts is, unquoted, in `testImports` if the file's name ends in
+`_test.go`, and in `imports` otherwise. -/
+theorem scan_no_dropped_import (U : Nat → Bool) (tags : GIV.Build.Tags) (ex : Bool) (files : List File)
+    (imps timps : List Bytes) (h : scanFiles U tags ex files = .ok (imps, timps))
+    (f : File) (hf : f ∈ files) (hsel : selected U tags ex f = true)
+    (p q : Bytes) (hp : p ∈ litsD f.2) (hq : unquote p = some q) :
+    (isTest f = false → q ∈ imps) ∧ (isTest f = true → q ∈ timps) := by
+  obtain ⟨_, _, hi, ht⟩ := scanFiles_ok_inv U tags ex files imps timps h
+  subst hi ht
+  constructor
+  · intro hT; rw [mem_keys, mem_impsOf]; exact ⟨f, hf, hsel, hT, p, hp, hq⟩
+  · intro hT; rw [mem_keys, mem_testImpsOf]; exact ⟨f, hf, hsel, hT, p, hp, hq⟩
+
+-- the example set: imports = ["a", "b"] ("a" once, from a.go and d.go; c.go skipped), testImports = ["ab", "t"]
+example : showScan (GIV.Scan.scanFiles exScanU noTags true exFiles) = (some ([[97], [98]], [[97, 98], [116]]), none) := by
+  decide +kernel
+-- … with the cgo tag c.go is scanned too: "C" and "z" appear
+example : showScan (GIV.Scan.scanFiles exScanU cgoTags true exFiles) = (some ([[67], [97], [98], [122]], [[97, 98], [116]]), none) := by
+  decide +kernel
+-- the hypotheses on the example: a_test.go is selected, is a test file, reports the literal "a\x62", which unquotes to "ab"
+example : GIV.Scan.selected exScanU noTags true (exFiles[1]) = true ∧ GIV.Scan.isTest (exFiles[1]) = true ∧
+    [34, 97, 92, 120, 54, 50, 34] ∈ GIV.Scan.litsD (exFiles[1]).2 ∧ GIV.Scan.unquote [34, 97, 92, 120, 54, 50, 34] = some [97, 98] ∧
+    GIV.Scan.unquote [34, 92, 113, 34] = none := by
+  decide +kernel
+
+open GIV.Scan in
+/-- Nothing foreign is reported: every element of `imports` (`testImports`) is the unquoted form of an
+import literal that ReadImports reports for a selected file of the list whose name does not (does) end in
+`_test.go`. -/
+theorem scan_no_foreign_import (U : Nat → Bool) (tags : GIV.Build.Tags) (ex : Bool) (files : List File)
+    (imps timps : List Bytes) (h : scanFiles U tags ex files = .ok (imps, timps)) (q : Bytes) :
+    (q ∈ imps → ∃ f ∈ files, selected U tags ex f = true ∧ isTest f = false ∧ ∃ p ∈ litsD f.2, unquote p = some q) ∧
+    (q ∈ timps → ∃ f ∈ files, selected U tags ex f = true ∧ isTest f = true ∧ ∃ p ∈ litsD f.2, unquote p = some q) := by
+  obtain ⟨_, _, hi, ht⟩ := scanFiles_ok_inv U tags ex files imps timps h
+  subst hi ht
+  exact ⟨fun hq => (mem_impsOf U tags ex files q).mp ((mem_keys q _).mp hq),
+         fun hq => (mem_testImpsOf U tags ex files q).mp ((mem_keys q _).mp hq)⟩
+
+-- on the example: "z" (imported only by the skipped c.go) and "t" (a test import) are not in imports
+example : (showScan (GIV.Scan.scanFiles exScanU noTags true exFiles)).1.map (fun r => (r.1.contains [122], r.1.contains [116], r.2.contains [116]))
+    = some (false, false, true) := by
+  decide +kernel
+
+open GIV.Scan in
+/-- Both result lists are strictly ascending in the byte-wise string order (what `sort.Strings` gives on
+distinct keys): sorted and free of duplicates. -/
+theorem scan_sorted_nodup (U : Nat → Bool) (tags : GIV.Build.Tags) (ex : Bool) (files : List File)
+    (imps timps : List Bytes) (h : scanFiles U tags ex files = .ok (imps, timps)) :
+    Sorted imps ∧ Sorted timps ∧ imps.Nodup ∧ timps.Nodup := by
+  obtain ⟨_, _, hi, ht⟩ := scanFiles_ok_inv U tags ex files imps timps h
+  subst hi ht
+  exact ⟨sorted_keys _, sorted_keys _, (sorted_keys _).nodup, (sorted_keys _).nodup⟩
+
+example : GIV.Scan.Sorted [[67], [97], [98], [122]] ∧ GIV.Scan.Sorted [[97, 98], [116]] ∧ ¬ GIV.Scan.Sorted [[97], [97]] ∧
+    GIV.Scan.keys [[98], [97], [122], [97], [67]] = [[67], [97], [98], [122]] := by decide +kernel
+
+open GIV.Scan in
+/-- The result does not depend on the order of the files: a successful scan returns the same two lists
+for every permutation of the file list; and when ReadImports fails on no file, failure (ErrNoGo) is
+permutation-invariant as well.  (With read errors the scan still fails for every order, but WHICH error
+is reported depends on the order — `scan_error_first`, and the example below.) -/
+theorem scan_order_independent (U : Nat → Bool) (tags : GIV.Build.Tags) (ex : Bool) (files files' : List File)
+    (hp : files.Perm files') :
+    (∀ imps timps, scanFiles U tags ex files = .ok (imps, timps) → scanFiles U tags ex files' = .ok (imps, timps)) ∧
+    ((∀ f ∈ files, readFails f = none) → scanFiles U tags ex files' = scanFiles U tags ex files) := by
+  have key : (∀ f ∈ files, readFails f = none) → scanFiles U tags ex files' = scanFiles U tags ex files := by
+    intro hn
+    have hn' : ∀ f ∈ files', readFails f = none := fun f hf => hn f (hp.mem_iff.mpr hf)
+    rw [scanFiles_noFail U tags ex files hn, scanFiles_noFail U tags ex files' hn']
+    have hc : countSel U tags ex files' = countSel U tags ex files := by
+      unfold countSel; exact ((hp.filter _).length_eq).symm
+    have hi : keys (impsOf U tags ex files') = keys (impsOf U tags ex files) := by
+      apply keys_congr; intro x
+      rw [mem_impsOf, mem_impsOf]
+      constructor
+      · rintro ⟨f, hf, r⟩; exact ⟨f, hp.mem_iff.mpr hf, r⟩
+      · rintro ⟨f, hf, r⟩; exact ⟨f, hp.mem_iff.mp hf, r⟩
+    have ht : keys (testImpsOf U tags ex files') = keys (testImpsOf U tags ex files) := by
+      apply keys_congr; intro x
+      rw [mem_testImpsOf, mem_testImpsOf]
+      constructor
+      · rintro ⟨f, hf, r⟩; exact ⟨f, hp.mem_iff.mpr hf, r⟩
+      · rintro ⟨f, hf, r⟩; exact ⟨f, hp.mem_iff.mp hf, r⟩
+    rw [hc, hi, ht]
+  refine ⟨?_, key⟩
+  intro imps timps h
+  rw [key (scanFiles_ok_inv U tags ex files imps timps h).1, h]
+
+-- the example set reversed gives the same lists
+example : showScan (GIV.Scan.scanFiles exScanU noTags true exFiles.reverse) = (some ([[97], [98]], [[97, 98], [116]]), none) := by
+  decide +kernel
+-- the no-read-error hypothesis of the second clause is needed: two files with a NUL (`package p\x00`), in both orders
+example :
+    showScan (GIV.Scan.scanFiles exScanU noTags true [([98, 97, 100, 46, 103, 111], [112, 97, 99, 107, 97, 103, 101, 32, 112, 0]), ([101, 46, 103, 111], [112, 97, 99, 107, 97, 103, 101, 32, 112, 0])])
+      = (none, some (.read [98, 97, 100, 46, 103, 111] .nul)) ∧
+    showScan (GIV.Scan.scanFiles exScanU noTags true [([101, 46, 103, 111], [112, 97, 99, 107, 97, 103, 101, 32, 112, 0]), ([98, 97, 100, 46, 103, 111], [112, 97, 99, 107, 97, 103, 101, 32, 112, 0])])
+      = (none, some (.read [101, 46, 103, 111] .nul)) := by
+  decide +kernel
+
+open GIV.Scan in
+/-- Which error: the scan fails with `e` exactly when either `e` is ErrNoGo, ReadImports fails on no file
+and no file is selected, or `e` is the error ("reading <name>: <err>") of the FIRST file in list order on
+which ReadImports fails — whatever the files after it contain, and even if no file would be selected. -/
+theorem scan_error_first (U : Nat → Bool) (tags : GIV.Build.Tags) (ex : Bool) (files : List File) (e : ScanErr) :
+    scanFiles U tags ex files = .error e ↔
+      (e = .noGo ∧ (∀ f ∈ files, readFails f = none) ∧ ∀ f ∈ files, selected U tags ex f = false) ∨
+      (∃ pre f post, files = pre ++ f :: post ∧ (∀ g ∈ pre, readFails g = none) ∧ readFails f = some e) := by
+  constructor
+  · intro h
+    rcases first_fail files with hn | ⟨pre, f, post, e0, he, hpre, hf⟩
+    · left
+      rw [scanFiles_noFail U tags ex files hn] at h
+      split at h
+      · next hc =>
+        simp only [Except.error.injEq] at h
+        exact ⟨h.symm, hn, (countSel_eq_zero U tags ex files).mp hc⟩
+      · cases h
+    · right
+      rw [he, scanFiles_fail U tags ex pre f post e0 hpre hf] at h
+      simp only [Except.error.injEq] at h
+      subst h
+      exact ⟨pre, f, post, he, hpre, hf⟩
+  · rintro (⟨rfl, hn, hs⟩ | ⟨pre, f, post, he, hpre, hf⟩)
+    · rw [scanFiles_noFail U tags ex files hn, if_pos ((countSel_eq_zero U tags ex files).mpr hs)]
+    · rw [he]; exact scanFiles_fail U tags ex pre f post e hpre hf
+
+-- a good file set, then a file with a NUL, then another one: the error names the first of the two; only c.go: ErrNoGo
+def exBad : List GIV.Scan.File :=
+  [([98, 97, 100, 46, 103, 111], [112, 97, 99, 107, 97, 103, 101, 32, 112, 0]), ([101, 46, 103, 111], [112, 97, 99, 107, 97, 103, 101, 32, 112, 0])]
+example : showScan (GIV.Scan.scanFiles exScanU noTags true (exFiles ++ exBad)) = (none, some (.read [98, 97, 100, 46, 103, 111] .nul)) := by
+  decide +kernel
+example : showScan (GIV.Scan.scanFiles exScanU noTags true ((exFiles.drop 2).take 1)) = (none, some .noGo) := by decide +kernel
+example : showScan (GIV.Scan.scanFiles exScanU noTags true []) = (none, some .noGo) := by decide +kernel
 
 end GIV.C18
